@@ -22,6 +22,7 @@ static void cfg_fields(vh::Out &o, const Call &c, int S, int nth)
     o.str("buf", c.buf);
     o.num("nth", nth);
     o.num("xv", c.xv);
+    o.num("env", c.env);
 }
 
 static Call parse_call(const std::vector<std::string> &t, size_t i)
@@ -36,6 +37,7 @@ static Call parse_call(const std::vector<std::string> &t, size_t i)
     c.dst = t[i + 7];
     c.buf = t[i + 8];
     c.xv = t.size() > i + 10 ? atoi(t[i + 10].c_str()) : 0;
+    c.env = t.size() > i + 11 ? atoi(t[i + 11].c_str()) : 0;
     return c;
 }
 static uint64_t bigval(uint64_t v) { return v == 1000000 ? 0xFFFFFFFFFFFFFFF0ULL : v; }
@@ -66,6 +68,7 @@ static void do_case(vh::Out &o, const std::vector<std::string> &t)
             c.dst = f[6];
             c.buf = f[7];
             c.xv = f.size() > 8 ? atoi(f[8].c_str()) : 0;
+            c.env = f.size() > 9 ? atoi(f[9].c_str()) : 0;
             Result rs = run_call(shared, c);
             NTT_Goldilocks fresh(1ULL << S, nth);
             Result rf = run_call(fresh, c);
